@@ -660,3 +660,40 @@ func mSort(m *Model, s *Sess, a []string, _ bool) Expect {
 }
 
 var _ = strconv.Itoa
+
+func init() {
+	reg("client", -2, false, func(m *Model, s *Sess, a []string, _ bool) Expect {
+		switch upper(a[1]) {
+		case "SETNAME":
+			if len(a) != 3 {
+				return eArgErr()
+			}
+			for i := 0; i < len(a[2]); i++ {
+				if a[2][i] < 33 || a[2][i] > 126 {
+					return eArgErr()
+				}
+			}
+			s.Name = a[2]
+			return eOK()
+		case "GETNAME":
+			if len(a) != 2 {
+				return eArgErr()
+			}
+			if s.Name == "" {
+				return eNil()
+			}
+			return eBulk(s.Name)
+		case "ID":
+			if len(a) != 2 {
+				return eArgErr()
+			}
+			return ePred("a client id", func(got Value) error {
+				if got.K != KInt || got.I <= 0 {
+					return errf("not a positive integer")
+				}
+				return nil
+			})
+		}
+		return Expect{Mode: exAny}
+	})
+}
